@@ -380,13 +380,10 @@ func (x *Exec) buildNode() (*node, error) {
 		}
 		x.k.ctl = ctl
 	}
-	if x.Cfg.Faults {
-		installFaultTriggers(x.k.ctl)
-	}
 	cfg := config.Config{
 		StoragePath:                    x.dbPath,
 		MaxRetriesStoreCertificate:     2,
-		DelayBetweenRetries:            cfgtypes.Duration{Duration: time.Second},
+		DelayBetweenRetries:            cfgtypes.Duration{Duration: time.Nanosecond}, // the status-tick hook keeps a 1 ns ticker alive: a longer fake sleep would step through every tick
 		KeepCertificatesHistory:        true,
 		MaxCertSize:                    x.maxCertSize(),
 		CheckStatusCertificateInterval: cfgtypes.Duration{Duration: time.Minute},
